@@ -114,7 +114,7 @@ for _name, (_op, _content, _custom, _pps) in OPS.items():
         target = "read-only operation: " + _name
         op = staticmethod(_op)
         content, custom, with_pps = _content, _custom, _pps
-        budget_s = 300
+        budget_s = 1800  # up to ~190 s on an idle machine
         describe = "every observable attribute of the scenario, its obstacles and states, the lanelet network and the planning problems is unchanged"
 
         def build(self, F):
